@@ -20,9 +20,9 @@ func init() {
 	core.Register(&core.Prop{
 		ID: "C18", Level: "exploration", Race: true,
 		Technique: "Go race detector (harness and library built with -race; verdict = WARNING: DATA RACE blocks counted in the GORACE log files) + determinism monitor: every concurrent call's result compared with the result of the same call executed alone",
-		Rule: "per case one shared error (PRNG tree depth<=6; every second one decoded from the wire first); reference results are computed sequentially on a twin built from the same descriptor (the shared value itself stays cold: nothing touches it before the goroutines start), then G goroutines (quick 16, thorough 64) are released together and each runs R rounds (3 / 10) of 14 observer operations in its own PRNG order, with no synchronisation inside the measured region. " +
+		Rule: "per case one shared error (PRNG tree depth<=6; every second one decoded from the wire first); reference results are computed sequentially on a twin built from the same descriptor (the shared value itself stays cold: nothing touches it before the goroutines start), then G goroutines (quick 16, thorough 48) are released together and each runs R rounds (3 / 6) of 14 observer operations in its own PRNG order, with no synchronisation inside the measured region. " +
 			"Non-trivial = case in which operations of different goroutines on the same error overlapped in time (measured from per-operation timestamps); distinct = kind-tree signature x local/decoded.",
-		Cases: tierN(320, 5000),
+		Cases: tierN(320, 3000),
 		Floor: tierN(100, 1000),
 		Run:   runC18,
 		Assumptions: []string{"the race detector reports unordered conflicting accesses on the executions produced; it says nothing about code the workload does not reach",
@@ -127,7 +127,7 @@ func runC18(c *core.Ctx) {
 	}
 	G, R := 16, 3
 	if c.Tier == "thorough" {
-		G, R = 64, 10
+		G, R = 48, 6
 	}
 	type result struct {
 		mism  []string
